@@ -147,6 +147,8 @@ def real_run(model, init, limit, files, base, api, options=None, debug=False):
         options = WatchedOptions()
     if limit is not None and limit % 5 == 2:
         limit = float(limit)  # one number type: a limit given as 7.0 (or the documented default 1e9) is the limit 7
+    elif limit is not None and limit > 0 and limit % 7 == 3:
+        limit = limit + (0.25 if limit % 2 else 0.5)  # "at most 8.25 statements" is "at most 8 statements"
     options.update({'globals': g, 'logFn': logs.append, 'maxStatements': limit, 'fetchFn': fs,
                     'urlFn': functools.partial(url_file_relative, base)})
     if limit is None:
